@@ -75,10 +75,15 @@ inline std::string run_signal_history(vf::rng &r, std::string &trace, int &ops) 
             if (l.kind == 1 && l.cb_limit >= 0 && (int)l.expect_n >= l.cb_limit) l.waiting = false;
         }
         size_t before[64]; for (size_t i = 0; i < L.size() && i < 64; i++) before[i] = L[i].vals.size();
-        if (use_void) { trace += "emit() "; (*vcol)(); }
-        else if (form == 0) { trace += "emit(value) "; (*col)((long)v); }
-        else if (form == 1) { trace += "emit(rvalue) "; int tmp = v; (*col)(std::move(tmp)); }
-        else { trace += "emit(lvalue) "; lvalue_store = v; (*(col2 ? col2 : col))(lvalue_store); }
+        // the collector is called from ordinary code, or while a ready queue is installed (as from inside a coroutine: the listeners are
+        // only queued by the discarded suspend point and run when the block ends - the value must still be there for them)
+        bool in_coro = r.chance(1, 3);
+        auto call = [&](auto &&fn) { if (in_coro) cocls::coro_queue::install_queue_and_call(fn); else fn(); };
+        if (in_coro) trace += "[coroutine mode] ";
+        if (use_void) { trace += "emit() "; call([&] { (*vcol)(); }); }
+        else if (form == 0) { trace += "emit(value) "; call([&] { (*col)((long)v); }); }
+        else if (form == 1) { trace += "emit(rvalue) "; call([&] { int tmp = v; (*col)(std::move(tmp)); }); }
+        else { trace += "emit(lvalue) "; lvalue_store = v; call([&] { (*(col2 ? col2 : col))(lvalue_store); }); }
         check_all("emit");
         for (size_t i = 0; i < L.size() && i < 64 && err.empty(); i++) {
             sl_rec &l = L[i];
